@@ -29,8 +29,14 @@ def contract_tasks(module, prop, configure=None, names=None, tier="quick"):
 
 def lemma_tasks(module, prop, names=None):
     mod = importlib.import_module(module)
-    return [{"kind": "lemma", "module": module, "name": type(l).__name__}
-            for l in getattr(mod, "LEMMAS", []) if prop in l.property_ids and (names is None or type(l).__name__ in names)]
+    out = []
+    for l in getattr(mod, "LEMMAS", []):
+        if prop in l.property_ids and (names is None or type(l).__name__ in names):
+            t = {"kind": "lemma", "module": module, "name": type(l).__name__}
+            if getattr(l, "configure", None):
+                t["configure"] = l.configure
+            out.append(t)
+    return out
 
 
 def other_tasks(module, prop, kind):
